@@ -1504,21 +1504,26 @@ package machine
 // VerifyStates memorises the order of the state names. Lock discipline only
 // (C12): the public entry point takes schemaMx for reading.
 //@ func (m *Machine) VerifyStates(states S) (err error)
-//@   props C12
+//@   props C12 C01
 //@   requires locks: unlocked(m.schemaMx) && unlocked(m.tracersMx)
+//@   requires export: isnil(m.stateNamesExport) || seqeq(m.stateNamesExport, m.stateNames)
 //@   requires nn: forall i int :: 0 <= i && i < len(m.tracers) ==> m.tracers[i] != nil
 //@   assigns *
 //@   ensures locks: unlocked(m.schemaMx) && unlocked(m.tracersMx)
+//@   ensures export: isnil(m.stateNamesExport) || seqeq(m.stateNamesExport, m.stateNames)
 
 //@ func (m *Machine) verifyStates(states S) (err error)
-//@   props C12
+//@   props C12 C01
 //@   requires held: locked(m.schemaMx)
 //@   requires locks: unlocked(m.tracersMx)
 //@   requires nn: forall i int :: 0 <= i && i < len(m.tracers) ==> m.tracers[i] != nil
 //@   assigns *
 //@   ensures locks: unlocked(m.tracersMx) && m.schemaMx == old(m.schemaMx)
+//@   requires export: isnil(m.stateNamesExport) || seqeq(m.stateNamesExport, m.stateNames)
+//@   ensures export: isnil(m.stateNamesExport) || seqeq(m.stateNamesExport, m.stateNames)
 //@   loop 1 invariant true
 //@   loop 2 invariant locks: rlocked(m.tracersMx) && m.schemaMx == old(m.schemaMx) && 0 <= i && (forall k int :: 0 <= k && k < len(m.tracers) ==> m.tracers[k] != nil)
+//@   loop 2 invariant export: isnil(m.stateNamesExport) || seqeq(m.stateNamesExport, m.stateNames)
 
 // ---- C20: the abstract machine behind the wait helpers (interface contracts) ----
 // Assumed of every implementation of Api. Every call is numbered (ghost.apiSeq);
